@@ -89,6 +89,15 @@ def check(run, tier, seed):
 
 
 def replay(run, path):
+    import json as _json
+    _c = _json.loads(open(path).read())
+    if 'max_num_paths' in _c:
+        from .. import gencorr
+        why = gencorr.explain('C19', _c)
+        print('declarative mediator clause:', why)
+        if why:
+            run.violation(dict(_c, why=why), note=why[:200])
+        return 1 if run.violations else 0
     c = json.loads(open(path).read())
     if 'names' in c:
         run2 = run
